@@ -41,6 +41,11 @@ pub struct Replayer {
     pub faults: bool,
     pub pairs: bool,
     pub reloaded: std::collections::HashSet<String>,
+    pub tamper: usize,
+    pub tamper_exhaustive: bool,
+    pub tamper_seed: u64,
+    pub observer: Option<crate::observer::Observer>,
+    pub jitter: u64,
 }
 
 macro_rules! viol {
@@ -51,7 +56,7 @@ macro_rules! viol {
 
 impl Replayer {
     pub fn new(w: World, deep: bool) -> Self {
-        Replayer { w, viols: vec![], step: 0, states: vec![], deep, faults: false, pairs: false, reloaded: Default::default() }
+        Replayer { w, viols: vec![], step: 0, states: vec![], deep, faults: false, pairs: false, reloaded: Default::default(), tamper: 0, tamper_exhaustive: false, tamper_seed: 1, observer: None, jitter: crate::observer::NO_JITTER }
     }
 
     /// Compare the real group of `party` with the expected projection `post`.
@@ -370,6 +375,7 @@ impl Replayer {
                     "psk" => g.propose_external_psk(mls_rs::psk::ExternalPskId::new(s(&args, "id").as_bytes().to_vec()), vec![]),
                     "rpsk" => g.propose_resumption_psk(u(&args, "pe"), vec![]),
                     "gce" => g.propose_group_context_extensions(gce_list(u(&args, "ver")), vec![]),
+                    "custom" => g.propose_custom(custom_proposal(u(&args, "ver")), vec![]),
                     "reinit" => g.propose_reinit(Some(b"verif-group-next".to_vec()), mls_rs::ProtocolVersion::MLS_10, suite, Default::default(), vec![]),
                     k => panic!("unknown proposal kind {k}"),
                 };
@@ -648,6 +654,14 @@ impl Replayer {
         let want = s(st, "res").to_string();
         let out = st.get("out").cloned().unwrap_or(json!({}));
         if a == "DsChoose" { return; }
+        if p == "observer" {
+            self.run_obs_step(&a, &args, &want, st.get("post"));
+            return;
+        }
+        if self.tamper > 0 || self.tamper_exhaustive {
+            self.tamper_probe(&a, &p, &args);
+            if !self.viols.is_empty() { return; }
+        }
         let before = self.w.parties[&p].group.as_ref().map(|g| g.verif_state());
         let storage_op = matches!(a.as_str(), "ApplyPending" | "ApplyDetached" | "DeliverCommit" | "DeliverApp" | "Write" | "Load" | "JoinWelcome" | "GenKeyPackage" | "Commit" | "CommitDetached");
         let (got, epoch_changed) = if self.faults && storage_op {
@@ -703,6 +717,127 @@ impl Replayer {
         }
     }
 
+    /// C16: one step of the external observer; every call is made under catch_unwind so that a panic is reported
+    /// as the C16 violation it is.
+    fn run_obs_step(&mut self, a: &str, args: &Value, want: &str, post: Option<&Value>) {
+        use std::panic::{catch_unwind, AssertUnwindSafe};
+        let got: Result<String, String> = match a {
+            "ObsJoin" => {
+                let from = s(args, "from").to_string();
+                let with_tree = self.step % 2 == 0;
+                let g = self.w.parties[&from].group.as_ref().unwrap();
+                let gi = g.group_info_message(with_tree).expect("group_info_message");
+                let tree = if with_tree { None } else { Some(g.export_tree().into_owned()) };
+                let backend = self.w.opts.backends[0];
+                let jit = self.jitter;
+                catch_unwind(AssertUnwindSafe(|| {
+                    let mut o = crate::observer::Observer::new(backend, jit);
+                    let r = o.join(gi, tree);
+                    (o, r)
+                }))
+                .map(|(o, r)| {
+                    self.observer = Some(o);
+                    r
+                })
+                .map_err(|_| "observe_group".to_string())
+            }
+            "ObsDeliverProposal" | "ObsDeliverCommit" | "ObsDeliverApp" => {
+                let m = match a {
+                    "ObsDeliverProposal" => self.w.props[u(args, "prop") as usize - 1].clone(),
+                    "ObsDeliverCommit" => self.w.commits[u(args, "commit") as usize - 1].msg.clone(),
+                    _ => {
+                        let ai = u(args, "app") as usize;
+                        let lo = self.w.app_lo.get(&ai).copied().unwrap_or(0);
+                        self.w.apps[ai - 1].1[u(args, "gen") as usize - lo].clone()
+                    }
+                };
+                let o = self.observer.as_mut().expect("observer exists");
+                catch_unwind(AssertUnwindSafe(|| o.process(m))).map(|r| r.0).map_err(|_| "process_incoming_message".to_string())
+            }
+            "ObsSnapshotRestore" => {
+                let o = self.observer.as_mut().expect("observer exists");
+                match catch_unwind(AssertUnwindSafe(|| o.snapshot_restore())) {
+                    Ok(Ok(())) => Ok("ok".into()),
+                    Ok(Err(e)) => {
+                        viol!(self, ["C16", "C06"], "obs-snapshot", "observer snapshot/restore: {e}");
+                        return;
+                    }
+                    Err(_) => Err("snapshot/load_group".to_string()),
+                }
+            }
+            _ => panic!("unknown observer action {a}"),
+        };
+        let got = match got {
+            Ok(g) => g,
+            Err(wher) => {
+                viol!(self, ["C16"], "obs-panic", "observer panicked in {wher} at {a} {args} (jitter {})", self.jitter);
+                return;
+            }
+        };
+        self.w.bump(&format!("{a}:{}", want.split(':').take(2).collect::<Vec<_>>().join(":")));
+        let same = got == want || (want.starts_with("err:rule") && got.starts_with("err:") && got != "err:epoch" && got != "err:proposal-not-found");
+        if !same {
+            viol!(self, ["C16"], "obs-outcome", "{a} {args}: observer returned {got}, specification says {want}");
+            return;
+        }
+        // projection: epoch, extensions, tree, cached proposals; and the very group context of a member of that epoch
+        let post = match post { Some(p) if s(p, "st") == "observer" => p.clone(), _ => return };
+        let (ctx, exported, mut have, roster, obs_tree_bytes) = {
+            let g = self.observer.as_ref().unwrap().group.as_ref().unwrap();
+            let have: Vec<Vec<u8>> = g.get_cached_proposals().iter().map(|c| c.proposal_ref().as_slice().to_vec()).collect();
+            let roster: Vec<(u32, Vec<u8>)> = g.roster().members_iter().map(|m| (m.index, m.signing_identity.signature_key.as_bytes().to_vec())).collect();
+            (g.group_context().clone(), g.exported_tree().into_owned(), have, roster, g.export_tree().ok())
+        };
+        have.sort();
+        if ctx.epoch != u(&post, "epoch") {
+            viol!(self, ["C16"], "obs-epoch", "observer at epoch {}, expected {}", ctx.epoch, u(&post, "epoch"));
+            return;
+        }
+        let ext_have = ctx.extensions.iter().find(|e| e.extension_type == GCE_EXT).map(|e| u16::from_be_bytes([e.extension_data[0], e.extension_data[1]]) as u64).unwrap_or(0);
+        if ext_have != u(&post, "ext") {
+            viol!(self, ["C16"], "obs-ext", "observer group context extension version {ext_have}, expected {}", u(&post, "ext"));
+        }
+        let exp = post.get("tree").and_then(|t| t.as_array()).cloned().unwrap_or_default();
+        let before = self.viols.len();
+        self.compare_tree("observer", exported.nodes(), &exp, "observer tree");
+        for v in self.viols[before..].iter_mut() {
+            v.props = vec!["C16"];
+        }
+        let mut wantc: Vec<Vec<u8>> = post
+            .get("cache")
+            .and_then(|c| c.as_array())
+            .map(|a| a.iter().filter_map(|j| self.w.prop_refs.get(j.as_u64().unwrap() as usize - 1).cloned()).collect())
+            .unwrap_or_default();
+        wantc.sort();
+        if have != wantc {
+            viol!(self, ["C16"], "obs-cache", "observer caches {} proposals, expected {}", have.len(), wantc.len());
+        }
+        // any member that is in the same epoch (same epoch secret id) holds the same context and roster
+        let ks = post.get("ks").and_then(|k| k.as_i64()).unwrap_or(-1);
+        let mut compared = 0;
+        let names: Vec<String> = self.w.parties.keys().cloned().collect();
+        for n in names {
+            let pa = &self.w.parties[&n];
+            if pa.ks != Some(ks) { continue; }
+            if let Some(mg) = pa.group.as_ref() {
+                if mg.current_epoch() != ctx.epoch { continue; }
+                compared += 1;
+                if mg.context() != &ctx {
+                    viol!(self, ["C16"], "obs-context", "observer and member {n} are in epoch {} of the same history but hold different group contexts", ctx.epoch);
+                }
+                let mr: Vec<(u32, Vec<u8>)> = mg.roster().members_iter().map(|m| (m.index, m.signing_identity.signature_key.as_bytes().to_vec())).collect();
+                if mr != roster {
+                    viol!(self, ["C16"], "obs-roster", "observer and member {n} hold different rosters in epoch {}", ctx.epoch);
+                }
+                if mg.export_tree().to_bytes().ok() != obs_tree_bytes {
+                    viol!(self, ["C16"], "obs-tree-bytes", "observer and member {n} export different ratchet trees in epoch {}", ctx.epoch);
+                }
+            }
+        }
+        if compared > 0 { self.w.bump("obs_member_context_compared"); }
+        self.w.bump("obs_steps");
+    }
+
     fn do_commit(&mut self, p: &str, args: &Value, out: &Value, want: &str, detached: bool) -> String {
         let byval = args.get("byval").and_then(|b| b.as_array()).cloned().unwrap_or_default();
         let kps: Vec<Option<MlsMessage>> = byval
@@ -721,6 +856,7 @@ impl Replayer {
                     "psk" => b.add_external_psk(mls_rs::psk::ExternalPskId::new(s(it, "id").as_bytes().to_vec()))?,
                     "rpsk" => b.add_resumption_psk(u(it, "epoch"))?,
                     "gce" => b.set_group_context_ext(gce_list(u(it, "ver")))?,
+                    "custom" => b.custom_proposal(custom_proposal(u(it, "ver"))),
                     "reinit" => b.reinit(Some(b"verif-group-next".to_vec()), mls_rs::ProtocolVersion::MLS_10, suite, Default::default())?,
                     "add" => b.add_member(kp.unwrap())?,
                     "rem" => b.remove_member(u(it, "target") as u32).map_err(|e| match e {
@@ -794,6 +930,201 @@ impl Replayer {
         }
     }
 
+    /// C03 / C04: before an authentic message is delivered, modified copies of it are offered to a clone of
+    /// the receiver: single-bit flips, truncations, splices with another authentic message of the same kind.
+    /// The specification's verdict for every non-identical copy is "reject" (MlsGroup.tla: only messages of
+    /// the delivery-service log are ever accepted): the clone must return an error, must not panic and must
+    /// be left exactly as it was.
+    pub fn tamper_probe(&mut self, a: &str, p: &String, args: &Value) {
+        use rand::{Rng, SeedableRng};
+        if a == "JoinWelcome" {
+            self.tamper_welcome(p, args);
+            return;
+        }
+        let (orig, others): (MlsMessage, Vec<MlsMessage>) = match a {
+            "DeliverProposal" => (self.w.props[u(args, "prop") as usize - 1].clone(), self.w.props.clone()),
+            "DeliverCommit" => (self.w.commits[u(args, "commit") as usize - 1].msg.clone(), self.w.commits.iter().map(|c| c.msg.clone()).collect()),
+            "DeliverApp" => {
+                let ai = u(args, "app") as usize;
+                let lo = self.w.app_lo.get(&ai).copied().unwrap_or(0);
+                let msgs = &self.w.apps[ai - 1].1;
+                (msgs[u(args, "gen") as usize - lo].clone(), msgs.clone())
+            }
+            _ => return,
+        };
+        let bytes = match orig.to_bytes() {
+            Ok(b) => b,
+            Err(_) => return,
+        };
+        let g0 = match self.w.parties[p].group.as_ref() {
+            Some(g) => g.clone(),
+            None => return,
+        };
+        let mut rng = rand::rngs::StdRng::seed_from_u64(self.tamper_seed ^ (self.step as u64) << 20 ^ bytes.len() as u64);
+        let mut variants: Vec<(String, Vec<u8>)> = vec![];
+        if self.tamper_exhaustive && bytes.len() <= 1500 {
+            for i in 0..bytes.len() * 8 {
+                let mut b = bytes.clone();
+                b[i / 8] ^= 1 << (i % 8);
+                variants.push((format!("flip bit {i}"), b));
+            }
+            for t in 0..bytes.len() {
+                variants.push((format!("truncate to {t}"), bytes[..t].to_vec()));
+            }
+        } else {
+            for _ in 0..self.tamper {
+                let i = rng.random_range(0..bytes.len() * 8);
+                let mut b = bytes.clone();
+                b[i / 8] ^= 1 << (i % 8);
+                variants.push((format!("flip bit {i}"), b));
+            }
+            for _ in 0..(self.tamper / 3).max(1) {
+                let t = rng.random_range(0..bytes.len());
+                variants.push((format!("truncate to {t}"), bytes[..t].to_vec()));
+            }
+        }
+        // splice: a window of another authentic message of the same kind copied over the same offsets
+        for o in others.iter().take(6) {
+            if let Ok(ob) = o.to_bytes() {
+                if ob != bytes && ob.len() > 8 {
+                    for _ in 0..2 {
+                        let len = rng.random_range(1..=ob.len().min(bytes.len()).min(64));
+                        let at = rng.random_range(0..=ob.len().min(bytes.len()) - len);
+                        let mut b = bytes.clone();
+                        b[at..at + len].copy_from_slice(&ob[at..at + len]);
+                        if b != bytes {
+                            variants.push((format!("splice {len} bytes at {at}"), b));
+                        }
+                    }
+                }
+            }
+        }
+        let before = g0.verif_state();
+        for (what, b) in variants {
+            let m = match MlsMessage::from_bytes(&b) {
+                Ok(m) => m,
+                Err(_) => { self.w.bump("tamper_rejected_by_decoder"); continue; }
+            };
+            if m.to_bytes().map(|x| x == bytes).unwrap_or(false) {
+                continue; // decodes to the identical message
+            }
+            let mut g = g0.clone();
+            let r = std::panic::catch_unwind(std::panic::AssertUnwindSafe(|| g.process_incoming_message(m)));
+            match r {
+                Err(_) => viol!(self, ["C03"], "tamper-panic", "{p}: processing a modified {a} message ({what}) panicked"),
+                Ok(Ok(res)) => viol!(self, ["C03"], "tamper-accepted", "{p}: a modified copy of an authentic message ({a}, {what}) was accepted: {:?}", format!("{res:?}").chars().take(120).collect::<String>()),
+                Ok(Err(_)) => {
+                    let d = before.diff(&g.verif_state());
+                    let gs = self.w.parties[p].gs.clone();
+                    let gid = self.w.gid.clone();
+                    let cached = g.verif_state().pending_updates_only_cached(&before, |id| gs.peek_epoch(&gid, id));
+                    let d: Vec<_> = d.into_iter().filter(|c| !(*c == "repo_updates" && cached)).collect();
+                    if !d.is_empty() {
+                        viol!(self, ["C04", "C03"], "tamper-changed-state", "{p}: rejecting a modified {a} message ({what}) changed {d:?}");
+                    }
+                    self.w.bump("tamper_rejected");
+                }
+            }
+            if !self.viols.is_empty() {
+                return;
+            }
+        }
+        self.w.bump(&format!("tamper_probes:{a}"));
+    }
+
+    /// C03: modified copies of a Welcome (and of the ratchet tree given out of band) offered to the joiner before
+    /// the authentic one.  Joining is a pure function of Welcome, tree and the joiner's key package, so a modified
+    /// copy is either rejected or -- when the modified bytes belong to another joiner's part of the Welcome --
+    /// yields exactly the group the authentic Welcome yields.
+    fn tamper_welcome(&mut self, p: &String, args: &Value) {
+        use rand::{Rng, SeedableRng};
+        let n = u(args, "commit") as usize;
+        let kpi = u(args, "kp") as usize;
+        let my_ref = self.w.kps[kpi - 1].store_id.clone();
+        let ce = &self.w.commits[n - 1];
+        let wmsg = match ce.output.welcome_messages.iter().find(|w| my_ref.is_empty() || w.welcome_key_package_references().iter().any(|r| r.to_vec() == my_ref)) {
+            Some(w) => w.clone(),
+            None => return,
+        };
+        let tree_bytes: Option<Vec<u8>> = if self.w.opts.ratchet_tree_ext { None } else { ce.tree.clone() };
+        let client = self.w.parties[p].client.clone();
+        let mk_tree = |b: &Option<Vec<u8>>| b.as_ref().map(|b| mls_rs::group::ExportedTree::from_bytes(b));
+        let reference = match client.join_group(mk_tree(&tree_bytes).map(|t| t.unwrap()), &wmsg, None) {
+            Ok((g, _)) => g.verif_state(),
+            Err(_) => return, // the authentic join fails (model-given verdict, checked by the step itself)
+        };
+        let wbytes = wmsg.to_bytes().unwrap();
+        let mut rng = rand::rngs::StdRng::seed_from_u64(self.tamper_seed ^ (self.step as u64) << 20 ^ wbytes.len() as u64);
+        let mut variants: Vec<(String, Vec<u8>, Option<Vec<u8>>)> = vec![];
+        let nflips = if self.tamper_exhaustive { wbytes.len() * 8 } else { self.tamper * 3 };
+        for k in 0..nflips {
+            let i = if self.tamper_exhaustive { k } else { rng.random_range(0..wbytes.len() * 8) };
+            let mut b = wbytes.clone();
+            b[i / 8] ^= 1 << (i % 8);
+            variants.push((format!("welcome: flip bit {i}"), b, tree_bytes.clone()));
+        }
+        for _ in 0..self.tamper.max(2) {
+            let t = rng.random_range(0..wbytes.len());
+            variants.push((format!("welcome: truncate to {t}"), wbytes[..t].to_vec(), tree_bytes.clone()));
+        }
+        // a Welcome of another commit (cross-epoch replay of the joiner's invitation)
+        for (i, o) in self.w.commits.iter().enumerate() {
+            if i + 1 == n { continue; }
+            for w in o.output.welcome_messages.iter().take(1) {
+                if let Ok(ob) = w.to_bytes() {
+                    let len = ob.len().min(wbytes.len());
+                    if len > 16 {
+                        let l = rng.random_range(1..=len.min(96));
+                        let at = rng.random_range(0..=len - l);
+                        let mut b = wbytes.clone();
+                        b[at..at + l].copy_from_slice(&ob[at..at + l]);
+                        if b != wbytes { variants.push((format!("welcome: splice {l} bytes at {at} from the Welcome of commit {}", i + 1), b, tree_bytes.clone())); }
+                    }
+                }
+            }
+        }
+        if let Some(tb) = tree_bytes.as_ref() {
+            for _ in 0..self.tamper * 2 {
+                let i = rng.random_range(0..tb.len() * 8);
+                let mut b = tb.clone();
+                b[i / 8] ^= 1 << (i % 8);
+                variants.push((format!("tree: flip bit {i}"), wbytes.clone(), Some(b)));
+            }
+            let t = rng.random_range(0..tb.len());
+            variants.push((format!("tree: truncate to {t}"), wbytes.clone(), Some(tb[..t].to_vec())));
+        }
+        for (what, wb, tb) in variants {
+            let m = match MlsMessage::from_bytes(&wb) {
+                Ok(m) => m,
+                Err(_) => { self.w.bump("tamper_rejected_by_decoder"); continue; }
+            };
+            let tree = match mk_tree(&tb) {
+                Some(Err(_)) => { self.w.bump("tamper_rejected_by_decoder"); continue; }
+                Some(Ok(t)) => Some(t),
+                None => None,
+            };
+            let r = std::panic::catch_unwind(std::panic::AssertUnwindSafe(|| client.join_group(tree, &m, None)));
+            match r {
+                Err(_) => viol!(self, ["C03"], "tamper-panic", "{p}: joining with a modified Welcome / tree ({what}) panicked"),
+                Ok(Err(_)) => self.w.bump("tamper_rejected"),
+                Ok(Ok((g, _))) => {
+                    let d = reference.diff(&g.verif_state());
+                    if d.is_empty() {
+                        self.w.bump("tamper_welcome_unaffected");
+                        if wmsg.welcome_key_package_references().len() == 1 {
+                            self.w.bump("tamper_welcome_unaffected_single");
+                            if std::env::var("VERIF_DEBUG").is_ok() { eprintln!("single-entry welcome accepted: {what} of {}", wbytes.len()); }
+                        }
+                    } else {
+                        viol!(self, ["C03", "C07"], "tamper-accepted", "{p}: a modified Welcome / ratchet tree ({what}) was accepted and yields a group that differs in {d:?}");
+                    }
+                }
+            }
+            if !self.viols.is_empty() { return; }
+        }
+        self.w.bump("tamper_probes:JoinWelcome");
+    }
+
     /// C05: no two AEAD encryptions of the whole run use the same (key, nonce); a sender's handshake and
     /// application keys are disjoint (follows from uniqueness of keys across all seals).
     pub fn nonce_monitor(&mut self) {
@@ -856,7 +1187,13 @@ impl Replayer {
     }
 }
 
+pub const CUSTOM_PROPOSAL: u16 = 0xF0F1;
 pub const GCE_EXT: mls_rs::extension::ExtensionType = mls_rs::extension::ExtensionType::new(0xF0F0);
+
+/// An application-defined proposal of the type every harness client supports (no effect, no path required).
+pub fn custom_proposal(ver: u64) -> mls_rs::group::proposal::CustomProposal {
+    mls_rs::group::proposal::CustomProposal::new(mls_rs::group::proposal::ProposalType::new(CUSTOM_PROPOSAL), (ver as u32).to_be_bytes().to_vec())
+}
 
 pub fn gce_list(ver: u64) -> mls_rs::ExtensionList {
     let mut l = mls_rs::ExtensionList::new();
@@ -869,7 +1206,7 @@ fn find(h: &[u8], n: &[u8]) -> bool {
 }
 
 /// Run one behaviour; stops at the first step with violations.
-pub fn run_behaviour(b: &Value, opts: Opts, deep: bool, faults: bool) -> Outcome {
+pub fn run_behaviour(b: &Value, opts: Opts, deep: bool, faults: bool, tamper: (usize, bool, u64)) -> Outcome {
     let cfg = b.get("cfg").cloned().unwrap_or(json!({}));
     let mut names: Vec<String> = cfg.get("parties").and_then(|p| p.as_array()).map(|a| a.iter().map(|x| x.as_str().unwrap().to_string()).collect()).unwrap_or_default();
     names.sort();
@@ -896,6 +1233,10 @@ pub fn run_behaviour(b: &Value, opts: Opts, deep: bool, faults: bool) -> Outcome
     }
     let mut r = Replayer::new(w, deep);
     r.faults = faults;
+    r.tamper = tamper.0;
+    r.tamper_exhaustive = tamper.1;
+    r.tamper_seed = tamper.2;
+    r.jitter = cfg.get("jit").and_then(|x| x.as_u64()).unwrap_or(crate::observer::NO_JITTER);
     r.w.rec.set(true, false);
     let steps = b.get("steps").and_then(|x| x.as_array()).cloned().unwrap_or_default();
     let mut run = 0;
